@@ -472,7 +472,6 @@ func stsDeadlock(dump string) (string, string) {
 	return fn, "this goroutine waits for a lock that nobody is left to release:\n" + trimStack(waiter)
 }
 
-
 // hangSummary: who waits for a mutex, who sleeps inside sts / hook code, whether an instance
 // was crashed - the facts stsDeadlock looks at, for the note of an inconclusive hang
 func hangSummary(dump string) string {
